@@ -1,4 +1,229 @@
-/- C10 — property theorems (under construction). -/
-import Lmd.Frame
+/-
+  C10 — every response is well framed and has the documented shape.
+
+  1./2. the fixed16 status line: sixteen bytes, `ccc`, a space, the byte count of what follows
+        right-aligned in eleven characters, a newline; the count parses back to body + newline.
+  3.    the keep-alive loop (`sessionPlan`): requests are answered in order, each once; a request
+        that does not parse ends the session with one error and leaves earlier answers alone.
+  4.    a result row is a JSON array with one value per requested column, in request order.
+
+  Helper lemmas live in `Lmd.Lemmas.Frame`.
+-/
+import Lmd.Lemmas.Frame
+
 namespace Lmd.C10
+open Lmd Lmd.Frame
+
+/-! ## 1. the fixed16 status line -/
+
+/-- The status line lmd writes for a three digit status code and a body of fewer than 10^11 - 1
+    bytes has exactly sixteen characters. -/
+theorem fixed16_header_length (code size : Nat) (h1 : 100 ≤ code) (h2 : code ≤ 999)
+    (hs : size + 1 < 10 ^ 11) : (fixed16Header code size).length = 16 := by
+  rw [← String.length_toList, header_toList]
+  have a := digits_length_code h1 h2
+  have b := field11_length hs
+  simp [a, b]
+
+/-- The sixteen characters are: the three digits of the status code, one space, the decimal number
+    `size + 1` right-aligned with spaces in eleven characters, one newline. -/
+theorem fixed16_header_layout (code size : Nat) (h1 : 100 ≤ code) (h2 : code ≤ 999)
+    (hs : size + 1 < 10 ^ 11) :
+    (fixed16Header code size).toList =
+        Nat.toDigits 10 code ++ [' '] ++
+          (List.replicate (11 - (Nat.toDigits 10 (size + 1)).length) ' ' ++ Nat.toDigits 10 (size + 1)) ++ ['\n']
+      ∧ (Nat.toDigits 10 code).length = 3
+      ∧ (List.replicate (11 - (Nat.toDigits 10 (size + 1)).length) ' ' ++ Nat.toDigits 10 (size + 1)).length = 11
+      ∧ (∀ c ∈ Nat.toDigits 10 code ++ Nat.toDigits 10 (size + 1), c.isDigit = true) := by
+  refine ⟨?_, digits_length_code h1 h2, field11_length hs, ?_⟩
+  · rw [header_toList]; simp [field11]
+  · intro c hc
+    rcases List.mem_append.1 hc with h | h <;> exact digits_isDigit h
+
+/-- The status line consists of single-byte characters, so it occupies exactly sixteen bytes on the
+    wire. -/
+theorem fixed16_header_bytes (code size : Nat) (h1 : 100 ≤ code) (h2 : code ≤ 999)
+    (hs : size + 1 < 10 ^ 11) : (fixed16Header code size).utf8ByteSize = 16 := by
+  rw [utf8ByteSize_ascii _ (header_ascii code size), fixed16_header_length code size h1 h2 hs]
+
+/-- how a client reads the status line: characters 0-2 are the status code -/
+def readCode (resp : String) : Option Nat := (String.ofList (resp.toList.take 3)).toNat?
+
+/-- how a client reads the status line: characters 4-14, leading spaces removed, are the length -/
+def readLength (resp : String) : Option Nat :=
+  (String.ofList (((resp.toList.drop 4).take 11).dropWhile (· == ' '))).toNat?
+
+private theorem read_aux (code size : Nat) (rest : List Char) (h1 : 100 ≤ code) (h2 : code ≤ 999)
+    (hs : size + 1 < 10 ^ 11) :
+    (((fixed16Header code size).toList ++ rest).take 3 = digits code) ∧
+    ((((fixed16Header code size).toList ++ rest).drop 4).take 11 = field11 (size + 1)) := by
+  rw [header_toList]
+  have a := digits_length_code h1 h2
+  have b := field11_length hs
+  constructor
+  · rw [List.append_assoc]; exact List.take_left' a
+  · have e : digits code ++ ' ' :: (field11 (size + 1) ++ ['\n']) ++ rest
+        = (digits code ++ [' ']) ++ (field11 (size + 1) ++ ('\n' :: rest)) := by simp
+    rw [e, List.drop_left' (by simp [a]), List.take_left' b]
+
+/-- A framed response starts with its status code: reading the first three characters of
+    `sendBytes true code body` as a decimal gives `code`. -/
+theorem fixed16_header_code_field (code : Nat) (body : String) (h1 : 100 ≤ code) (h2 : code ≤ 999)
+    (hs : body.utf8ByteSize + 1 < 10 ^ 11) : readCode (sendBytes true code body) = some code := by
+  have := (read_aux code body.utf8ByteSize (body.toList ++ ['\n']) h1 h2 hs).1
+  simp only [readCode, sendBytes, if_true, String.toList_append, List.append_assoc] at this ⊢
+  have e : ("\n" : String).toList = ['\n'] := rfl
+  rw [e, this]
+  exact toNat?_ofList_digits code
+
+/-- The length announced in the status line is the number of bytes that follow it: the response is
+    the sixteen byte status line, the body and a newline; the number in columns 4-14 parses back to
+    the byte size of body plus newline, and the whole response has 16 + that many bytes. -/
+theorem fixed16_header_length_field (code : Nat) (body : String) (h1 : 100 ≤ code) (h2 : code ≤ 999)
+    (hs : body.utf8ByteSize + 1 < 10 ^ 11) :
+    sendBytes true code body = fixed16Header code body.utf8ByteSize ++ body ++ "\n"
+    ∧ readLength (sendBytes true code body) = some ((body ++ "\n").utf8ByteSize)
+    ∧ (sendBytes true code body).utf8ByteSize = 16 + (body ++ "\n").utf8ByteSize := by
+  have nl : ("\n" : String).utf8ByteSize = 1 := rfl
+  refine ⟨by simp [sendBytes], ?_, ?_⟩
+  · have := (read_aux code body.utf8ByteSize (body.toList ++ ['\n']) h1 h2 hs).2
+    simp only [readLength, sendBytes, if_true, String.toList_append, List.append_assoc] at this ⊢
+    have e : ("\n" : String).toList = ['\n'] := rfl
+    rw [e, this, field11, dropWhile_pad, String.utf8ByteSize_append, nl]
+    exact toNat?_ofList_digits _
+  · simp only [sendBytes, if_true, String.utf8ByteSize_append, fixed16_header_bytes code _ h1 h2 hs]
+    omega
+
+/-- Without `ResponseHeader: fixed16` the response is the body and a newline, nothing else. -/
+theorem plain_response (code : Nat) (body : String) : sendBytes false code body = body ++ "\n" := by
+  simp [sendBytes]
+
+/-- non-vacuity: the status line for code 200 and a 41 byte body -/
+example : fixed16Header 200 41 = "200          42\n" ∧ (100 ≤ 200 ∧ 200 ≤ 999 ∧ 41 + 1 < 10 ^ 11) := by
+  decide
+
+example : readLength (sendBytes true 200 "[[\"a\",1]]") = some 10 ∧ readCode (sendBytes true 200 "[[\"a\",1]]") = some 200 :=
+  ⟨(fixed16_header_length_field 200 _ (by decide) (by decide) (by decide)).2.1,
+   fixed16_header_code_field 200 _ (by decide) (by decide) (by decide)⟩
+
+/-- the bound on the size is needed: with twelve digits the line gets longer than sixteen -/
+example : (fixed16Header 200 (10 ^ 11)).length = 17 := by decide
+
+/-! ## 3. the keep-alive loop -/
+
+/-- (a) Positions are consecutive: the k-th action of a session that starts at request number `i`
+    refers to request `i + k`; no request is skipped, repeated or answered out of order. -/
+theorem keepalive_seq_index (i : Nat) (reqs : List WireReq) (k : Nat) (a : Action)
+    (h : (sessionPlan i reqs)[k]? = some a) : Action.idx a = i + k :=
+  plan_idx i reqs k a h
+
+/-- (b) lmd never produces more actions than requests were read. -/
+theorem keepalive_seq_length (i : Nat) (reqs : List WireReq) :
+    (sessionPlan i reqs).length ≤ reqs.length :=
+  plan_length_le i reqs
+
+/-- (c) If every request parses and all but possibly the last carry `KeepAlive: on`, every request
+    is answered exactly once, in order. -/
+theorem keepalive_seq (reqs : List WireReq)
+    (hp : ∀ r ∈ reqs, r.parses = true) (hk : ∀ r ∈ reqs.dropLast, r.keepAlive = true) :
+    sessionPlan 0 reqs = (List.range reqs.length).map Action.answer := by
+  rw [plan_all_answered 0 reqs hp hk, List.range_eq_range']
+
+/-- (c, any start) the same for a session whose first request has number `i`. -/
+theorem keepalive_seq_from (i : Nat) (reqs : List WireReq)
+    (hp : ∀ r ∈ reqs, r.parses = true) (hk : ∀ r ∈ reqs.dropLast, r.keepAlive = true) :
+    sessionPlan i reqs = (List.range' i reqs.length).map Action.answer :=
+  plan_all_answered i reqs hp hk
+
+/-- Later requests never change earlier answers: the plan for the first requests is a prefix of
+    the plan for the whole input, whatever follows. -/
+theorem keepalive_prefix_stable (i : Nat) (pre post : List WireReq) :
+    sessionPlan i pre <+: sessionPlan i (pre ++ post) :=
+  plan_prefix i pre post
+
+/-- (d) The first request that does not parse, reached while the connection is still kept alive,
+    produces exactly one parse-error action; it is the last action (whatever follows on the wire
+    is not processed), and the actions before it are exactly those of the requests before it. -/
+theorem keepalive_parse_error (i : Nat) (pre post : List WireReq) (r : WireReq)
+    (hp : ∀ x ∈ pre, x.parses = true) (hk : ∀ x ∈ pre, x.keepAlive = true) (hr : r.parses = false) :
+    sessionPlan i (pre ++ r :: post) = sessionPlan i pre ++ [Action.parseError (i + pre.length)]
+    ∧ sessionPlan i pre = (List.range' i pre.length).map Action.answer := by
+  have e1 := plan_append_of_alive i pre (r :: post) hp hk
+  have e2 := plan_append_of_alive i pre [] hp hk
+  simp only [List.append_nil] at e2
+  have e3 : sessionPlan (i + pre.length) [] = [] := rfl
+  rw [e3, List.append_nil] at e2
+  rw [e1, e2]
+  simp [sessionPlan, hr]
+
+/-- (d') A parse-error action can only be the last action of a session, for any input. -/
+theorem keepalive_parse_error_last (i : Nat) (reqs : List WireReq) (k j : Nat)
+    (h : (sessionPlan i reqs)[k]? = some (Action.parseError j)) :
+    k + 1 = (sessionPlan i reqs).length :=
+  plan_parseError_last i reqs k j h
+
+/-- (e) After a request without `KeepAlive: on` (or one that does not parse) nothing further is
+    processed: whatever follows it on the wire has no effect on the session. -/
+theorem keepalive_stops (i : Nat) (pre post : List WireReq) (r : WireReq)
+    (hr : r.parses = false ∨ r.keepAlive = false) :
+    sessionPlan i (pre ++ r :: post) = sessionPlan i (pre ++ [r]) := by
+  have := plan_append_of_ended i (pre ++ [r]) post ⟨r, by simp, hr⟩
+  simpa using this
+
+/-- (e') In particular a parsed request without keep-alive that is reached is answered and is the
+    last: the session has exactly `pre.length + 1` answers. -/
+theorem keepalive_last_answer (i : Nat) (pre post : List WireReq) (r : WireReq)
+    (hp : ∀ x ∈ pre, x.parses = true) (hk : ∀ x ∈ pre, x.keepAlive = true)
+    (hr : r.parses = true) (hka : r.keepAlive = false) :
+    sessionPlan i (pre ++ r :: post) = (List.range' i (pre.length + 1)).map Action.answer := by
+  rw [plan_append_of_alive i pre (r :: post) hp hk]
+  simp [sessionPlan, hr, hka, List.range'_concat]
+
+/-- non-vacuity: three requests, the last without keep-alive; and a session cut short by a
+    request that does not parse -/
+example : sessionPlan 0 [⟨true, true⟩, ⟨true, true⟩, ⟨true, false⟩]
+    = [Action.answer 0, Action.answer 1, Action.answer 2] := by decide
+
+example : sessionPlan 0 [⟨true, true⟩, ⟨false, true⟩, ⟨true, true⟩]
+    = [Action.answer 0, Action.parseError 1] := by decide
+
+/-! ## 4. the shape of a result row -/
+
+/-- A result row is a JSON array with exactly one element per requested column, and the k-th
+    element is the value of the k-th requested column (request order is kept). -/
+theorem hitJson_width (s : Schema) (ds : Dataset) (t : Table) (cols : List Column) (h : Hit) :
+    ∃ a : Array Lean.Json, hitJson s ds t cols h = .arr a ∧ a.size = cols.length ∧
+      ∀ k (hk : k < cols.length), a[k]? = some (cellJson { schema := s, ds := ds, b := h.b } t h.r cols[k]) := by
+  refine ⟨_, rfl, by simp, ?_⟩
+  intro k hk
+  simp [hk]
+
+/-- With a `Columns:` header (or a Stats query) the response columns are the requested ones, one per
+    name and in the order of the header; without either, all columns of the table. -/
+theorem requestColumns_length (t : Table) (req : Request) :
+    (req.columns ≠ [] ∨ req.stats ≠ [] →
+      requestColumns t req = req.columns.map t.colWithFallback ∧
+      (requestColumns t req).length = req.columns.length)
+    ∧ (req.columns = [] ∧ req.stats = [] → requestColumns t req = t.cols) := by
+  constructor
+  · intro h
+    have : (req.columns.isEmpty && req.stats.isEmpty) = false := by
+      rcases h with h | h
+      · simp [List.isEmpty_iff, h]
+      · simp [List.isEmpty_iff, h]
+    simp [requestColumns, this]
+  · rintro ⟨h1, h2⟩
+    simp [requestColumns, h1, h2]
+
+/-- The placeholder lmd writes for a column the backend does not have is of the JSON kind documented
+    for the column type: string, number, array or object — never `null`. -/
+theorem emptyCellJson_kind (d : DataType) : jsonKind (emptyCellJson d) = DataType.jsonKind d := by
+  cases d <;> rfl
+
+/-- A typed value is never rendered as JSON `null` or as a Boolean. -/
+theorem valJson_kind (v : Val) : jsonKind (valJson v) ≠ .null ∧ jsonKind (valJson v) ≠ .bool := by
+  cases v with
+  | emptyList t => by_cases h : t = "[]" <;> simp [valJson, jsonKind, Lean.Json.mkObj, h]
+  | _ => simp [valJson, jsonKind, intJson, milliJson, Lean.Json.mkObj]
+
 end Lmd.C10
